@@ -264,6 +264,10 @@ def r_iter_cap_agree(cx):
             if r[0] == "agg" and "Range" in str(r[1]) and len(r[2]) == 2 and all(
                     y[0] == "const" and isinstance(y[2], int) for y in r[2]):
                 caps.append((r[2][1][2] - r[2][0][2] + (1 if "Inclusive" in str(r[1]) else 0), lp.header))
+            # `a..=b` is built by RangeInclusive::new(a, b)
+            if r[0] == "call" and isinstance(r[1], str) and r[1].endswith("RangeInclusive::<Idx>::new") and len(r[2]) == 2 and all(
+                    y[0] == "const" and isinstance(y[2], int) for y in r[2]):
+                caps.append((r[2][1][2] - r[2][0][2] + 1, lp.header))
     rt = E.return_term(g)
     es = E.elems(g, rt, None) if rt is not None else None
     counter_ok = False
